@@ -63,6 +63,30 @@ extern "C" double w_MPSgetRHS(double left, double right)
 }
 #endif
 
+#ifdef INST_MPSgetRHS_rat
+/* Rational twin (spxlpbase_rational.hpp).  Rational = ordered-group long long: the body only copies its arguments and
+ * compares double(x) with +-double(infinity).  A long long cannot reach the threshold 1e100 the code uses, so the
+ * conversion is the MONOTONE map that sends the sentinel range |v| >= RAT_INF to +-infinity and is exact below it
+ * (RAT_INF = 2^52): "the rational is at least as large as the infinity threshold" <=> v >= RAT_INF. */
+struct Rational
+{
+   long long v;
+   Rational() {}
+   operator double() const { return v >= RAT_INF ? infinity : v <= -RAT_INF ? -infinity : (double)v; }
+};
+static Rational MPSgetRHS(Rational left, Rational right)
+{
+#include "MPSgetRHS_rat.inc"
+}
+extern "C" long long w_MPSgetRHS_rat(long long left, long long right)
+{
+   VIN("left", left); VIN("right", right);
+   Rational l, r; l.v = left; r.v = right;
+   Rational ret = MPSgetRHS(l, r);
+   return ret.v;
+}
+#endif
+
 #ifdef INST_LPFwriteRow
 /* stub of LPFwriteSVector: one event (the coefficient list is written by a function that is not under contract) */
 static void LPFwriteSVector(const LP& p_lp, OStub& p_output, const NameSet* p_cnames, const SVec& p_svec) { ev(EV_SVEC, 0.0); }
